@@ -515,6 +515,14 @@ fn gen_cases(cfg: &Cfg, rep: &mut Report) -> (Vec<CaseDesc>, Vec<CaseDesc>) {
             big.push(CaseDesc { opts: o.clone(), spec: spec.clone(), class: "deep-list-across-lines-small-stack", stack_kib: Some(512) });
         }
     }
+    // tables that reach the auto-completion cap: the rows after it are completed no further, and every
+    // renderer walks the alignments of a table whose rows stopped short
+    for (cols, rows) in [(2000usize, 260usize), (600, 1000)] {
+        let spec = spec_of(&[(b"|a", cols), (b"|\n", 1), (b"|-", cols), (b"|\n", 1), (b"|x\n", rows), (b"\nafter\n", 1)]);
+        for o in [Opts::all_extensions(), Opts::gfm()] {
+            big.push(CaseDesc { opts: o, spec: spec.clone(), class: "table-at-autocompletion-cap", stack_kib: None });
+        }
+    }
     rep.add("cases-small", small.len() as u64);
     rep.add("cases-big", big.len() as u64);
     (small, big)
